@@ -120,6 +120,10 @@ def run(ctx):
                                         good.add(e.dst.id)
                     dom = g.dominators(edge_ok=is_flow)
                     ok = bool(nodes) and all(dom.get(n.id, set()) & good for n in nodes)
+                    # or: the endpoint's get() itself honours a timeout argument that is derived from the method's timeout
+                    targ = next((k.value for k in c.keywords if k.arg == 'timeout'), None)
+                    if not ok and targ is not None and timeout_dependent(targ, tparams) and endpoint_get_honours_timeout(ctx):
+                        ok = True
                     ctx.check('R1', f'{F}: the read on {r} is guarded by poll(timeout)', ok, F, f'unbounded-read:{r}',
                               f'`{norm(c)}` in {F} blocks without a timeout: a child that never answers (interpreter lock held by a C call, stopped process) keeps '
                               'terminate() from ever reaching the timed join and the forced kill', where=loc(f, c))
@@ -289,6 +293,27 @@ def run(ctx):
 
 
 _so_cache = {}
+
+
+def endpoint_get_honours_timeout(ctx):
+    """PipeEndpoint.get(block=True, timeout=t): the blocking receive is dominated by a successful poll(t)"""
+    PE = ctx.prog.cls('PipeEndpoint')
+    f = PE.methods.get('get')
+    if f is None or 'timeout' not in f.all_params():
+        return False
+    g = ctx.an.cfg(f, PE)
+    good = set()
+    for n in g.nodes:
+        if n.kind == 'test' and isinstance(n.stmt, ast.If) and n.part in (None, 'post'):
+            t = n.stmt.test
+            neg = False
+            if isinstance(t, ast.UnaryOp) and isinstance(t.op, ast.Not):
+                t, neg = t.operand, True
+            if isinstance(t, ast.Call) and last_attr(t) == 'poll' and t.args and 'timeout' in names_in(t.args[0]):
+                good |= {e.dst.id for e in n.succ if e.kind == ('false' if neg else 'true')}
+    recvs = [n for n in g.nodes if n.stmt is not None and n.part == 'eval' and any(last_attr(c) == 'recv' for c in n.calls())]
+    dom = g.dominators(edge_ok=is_flow)
+    return bool(recvs) and bool(good) and all(dom.get(n.id, set()) & good for n in recvs)
 
 
 def start_only_attrs(ctx, cls):
